@@ -48,7 +48,7 @@ func verifWrite(p []byte) (int, error) {
 	if s.failing {
 		return 0, errVerifWrite
 	}
-	s.under.Write([]byte{0xAA}) // a partial stream: not decodable until the writer is closed
+	s.under.Write([]byte{0xAA, byte(len(p))}) // a partial stream (it depends on the input): not decodable until the writer is closed
 	return len(p), nil
 }
 
@@ -80,7 +80,7 @@ func verifHook_brWrite(z *brotli.Writer, p []byte) (int, error) { return verifWr
 func verifHook_brClose(z *brotli.Writer) error { return verifClose() }
 
 func c12Complete(out []byte) bool {
-	return len(out) == 2 && out[0] == 0xAA && out[1] == 0xFF
+	return len(out) == 3 && out[0] == 0xAA && out[2] == 0xFF
 }
 
 func Harness_C12_gzip_wrapper() {
@@ -233,4 +233,30 @@ func Harness_C12_dispatch() {
 	_, err = srv.Decompress("deflate", orig)
 	verifAssert("C12.dispatch.unknown-is-error", err != nil)
 	verifReach("C12.dispatch.end")
+}
+
+// An encoded stream handed back to the caller stays what it is: a later encode (of anything) does not
+// overwrite it — the caller keeps it for the lifetime of a cache entry (GzipBody / BrBody).
+func Harness_C12_results_not_shared() {
+	VerifCodecStubs = false
+	d1 := verifBytes("d1", 3)
+	d2 := verifBytes("d2", 3)
+	which := verifChoice("codec", 2)
+	enc := func(d []byte) ([]byte, error) {
+		if which == 0 {
+			return doGzip(d, 6)
+		}
+		return doBrotli(d, 6)
+	}
+	verifWriters = nil
+	o1, e1 := enc(d1)
+	verifAssume(e1 == nil)
+	keep := append([]byte{}, o1...)
+	enc(d2)
+	same := len(keep) == len(o1)
+	for i := 0; same && i < len(keep); i++ {
+		same = keep[i] == o1[i]
+	}
+	verifAssert("C12.encoded-result-is-not-overwritten-by-a-later-encode", same)
+	verifReach("C12.not-shared.end")
 }
